@@ -90,12 +90,27 @@ def doOp (cfg : Config) (s : MState) (live : List Info) (tok : String) : Option 
   | ["c"] => pure (s, live, s!"c={sizes s}")
   | _ => none
 
-def runOps (cfg : Config) : MState → List Info → List String → List String → Option (List String)
-  | _, _, [], acc => some acc.reverse
-  | s, live, t :: ts, acc =>
-    match doOp cfg s live t with
-    | none => none
-    | some (s', live', out) => runOps cfg s' live' ts (out :: acc)
+/-- `k|<fuzzy>|<extensions>|<requirePattern>|<rules>` : `update_config` -/
+def parseConfigTok (cfg : Config) (tok : String) : Option Config :=
+  match splitTok '|' tok with
+  | ["k", fz, exts, rp, rules] => do
+    let exts ← parsePatterns exts
+    let rp ← parsePatterns rp
+    let rules ← (parseList ';' rules).mapM parseRule
+    pure (updateConfig cfg (fz == "1") exts rp rules)
+  | _ => none
+
+def runOps : Config → MState → List Info → List String → List String → Option (List String)
+  | _, _, _, [], acc => some acc.reverse
+  | cfg, s, live, t :: ts, acc =>
+    if t.startsWith "k|" then
+      match parseConfigTok cfg t with
+      | none => none
+      | some cfg' => runOps cfg' s live ts ("k" :: acc)
+    else
+      match doOp cfg s live t with
+      | none => none
+      | some (s', live', out) => runOps cfg s' live' ts (out :: acc)
 
 /-! ### `index.db <op>…` — the generic `DbIndex` maps
 ops: `p:<file>:<slot>:<v>` · `k:<file>:<map>:<key>:<v>` · `n:<file>:<map>:<key>:<v>` · `o:<file>:<map>:<id>:<v>` ·
